@@ -164,6 +164,8 @@ def setup(concepts, spec):
     attach.attach(concepts.contexts.Context, 'relations', RelationsMonitor())
     attach.attach(concepts.junctors.Relations, '__str__', StrMonitor())
     attach.attach(concepts.junctors.Relations, 'tostring', TostringMonitor())
+    global POOL
+    POOL = common.Pool(5)
 
 
 def targeted():
@@ -188,6 +190,7 @@ def cases(tier, seed, spec):
 
 
 def run_case(concepts, case, spec):
+    rng = common.rng_for(case, spec)
     ctx = common.build_or_skip(concepts, case)
     if ctx is None:
         return
@@ -205,3 +208,17 @@ def run_case(concepts, case, spec):
         call(rel.tostring)
         call(rel.tostring, True)
         call(rel.tostring, exclude_orthogonal=False)
+        if len(rel) and hash(gen.table_key(case)) % 4 == 0:
+            rel.reverse()               # the caller owns the returned list ...
+            del rel[0]
+            rel2 = call(ctx.relations, include_unary=inc)      # ... the next answer is unaffected
+            if rel2 is not RAISED:
+                call(str, rel2)
+            COL.count('returned_list_edited_then_asked_again')
+    old = POOL.older(rng)
+    if old is not None:
+        r = call(old.relations)
+        if r is not RAISED:
+            call(str, r)
+        COL.count('session_requeries')
+    POOL.add(ctx)
